@@ -45,6 +45,12 @@ def cases(tier, seed):
     for nm in NAMES:
         for ft, dt in ((0, 0), (0, 0xFF), (1, 0), (1, 0xFF), (2, 0), (2, 0xFF), (3, 0), (3, 0xFF)):
             yield {"k": "write", "files": [C.spec(nm, ftype=ft, dtype=dt, n=5)]}
+    # files that carry a gap flag (as files listed from a tape with gaps do)
+    for g in (0x00, 0xFF, 0x01):
+        for n in (1, 255, 300):
+            for ft, dt in ((2, 0), (0, 0xFF), (1, 0xFF)):
+                yield {"k": "write", "files": [dict(C.spec("GAP", ftype=ft, dtype=dt, n=n, pat="ramp"), gaps=g)]}
+        yield {"k": "write", "files": [dict(ALPHA[0], gaps=g), ALPHA[1], dict(ALPHA[6], gaps=g)]}
     addrs = range(0, 65536) if thorough else ADDRS
     for a in addrs:
         yield {"k": "write", "files": [C.spec("ADR", load=a, exec_=0x0E00, n=1)]}
@@ -88,7 +94,8 @@ def cell_of(case):
     fs = case["files"]
     if case["k"] == "write":
         return "write|{}|{}|{}".format(",".join(lenclass(s["n"]) for s in fs) or "none",
-                                       ",".join(s["pat"] for s in fs)[:40], ",".join("t{}d{:02X}".format(s["type"], s["dtype"]) for s in fs))
+                                       ",".join(s["pat"] for s in fs)[:40],
+                                       ",".join("t{}d{:02X}{}".format(s["type"], s["dtype"], "g{:02X}".format(s["gaps"]) if "gaps" in s else "") for s in fs))
     return "read|nl={}|dl={}|gap={}|{}".format(case["nl"], case["dl"], case["gap"], ",".join(lenclass(s["n"]) for s in fs) or "none")
 
 
